@@ -18,6 +18,7 @@ import IocProofs.Lemmas.ConcStart
 import IocProofs.Lemmas.SemIocRun
 import IocProofs.Lemmas.SemAppOptions
 import IocProofs.Lemmas.SemAppRun
+import IocProofs.Lemmas.SemRefresh
 namespace Ioc.C13
 open Ioc Ioc.M2 Ioc.App
 
@@ -270,5 +271,15 @@ theorem C13_code_initiate (p : AIP) (w : List ACall) :
   initiate_sem p w
 
 end apprun
+
+/-- "only after the container is ready": Refresh (regenerated, `C10_code_Refresh`) asks the factory for every non-lazy name of
+    the DEFINITION REGISTRY AS IT IS WHEN Refresh RUNS — definitions added by factory post-processors included — in sorted
+    order, and stops at the first failing creation; `run` calls the runners only after it returned nil -/
+theorem C13_code_Refresh_reads_registry (sort : (Nat → Nat → Bool) → List Nat → List Nat) (metas : List Nat)
+    (lazy getFails : Nat → Bool) :
+    Go.run (Sem.refreshPrims sort metas lazy getFails) Progs.fac_Refresh [] [] =
+      some (if (Order.runLoop getFails (Sem.refreshNames sort metas lazy) []).2 then Sem.errN else .nil,
+            (Order.runLoop getFails (Sem.refreshNames sort metas lazy) []).1) :=
+  Sem.refresh_sem sort metas lazy getFails
 
 end Ioc.C13
